@@ -45,14 +45,32 @@ Section Segment.
       Ok (in01 ((vz a2 - vz a1) / vz a1b1) && in01 ((vz b2 - vz a1) / vz a1b1))
     else Err 4%N.
 
-  (** returns (t_a, t_b) and the path tag: 1 same direction, 2 "not coplanar", 3/4/5 projection z/x/y, 6 degenerate *)
+  (** the tail of get_intersection_pt (choice of the projection and Cramer's rule), written once so that proofs about
+      the current code and about the pinned code (Model/PinnedSegment.v) share it; tags 3/4/5 = projection along
+      z/x/y, 6 = no usable projection.  [seg_get_intersection_pt_tag] below keeps the text of the Rust inline. *)
+  Definition seg_solve (a b delta normal : V) : option (K * K) * N :=
+    if nabs (vz normal) >? c1em5 then
+      let det := vy a * vx b - vx a * vy b in
+      (Some ((vy b * vx delta - vx b * vy delta) / det, (vy a * vx delta - vx a * vy delta) / det), 3%N)
+    else if nabs (vx normal) >? c1em5 then
+      let det := vy a * vz b - vz a * vy b in
+      (Some ((vy b * vz delta - vz b * vy delta) / det, (vy a * vz delta - vz a * vy delta) / det), 4%N)
+    else if nabs (vy normal) >? c1em5 then
+      let det := vx a * vz b - vz a * vx b in
+      (Some ((vx b * vz delta - vz b * vx delta) / det, (vx a * vz delta - vz a * vx delta) / det), 5%N)
+    else (None, 6%N).
+
+  (** returns (t_a, t_b) and the path tag: 1 same direction, 2 not coplanar, 3/4/5 projection z/x/y, 6 degenerate.
+      After fix ec384e6 (finding F5): the coplanarity test is a test of the distance between the two supporting
+      lines, [|delta . n| / |n|], against COPLANAR_TINY = 1e-5.  The pinned test [(delta x n).is_zero()] is kept in
+      Model/PinnedSegment.v ([seg_get_intersection_pt_tag_pinned]). *)
   Definition seg_get_intersection_pt_tag (s input : Seg) : option (K * K) * N :=
     let a := vsub (send s) (sstart s) in
     let b := vsub (send input) (sstart input) in
     if vis_same_direction a b then (None, 1%N) else
     let normal := vcross a b in
     let delta := vsub (sstart s) (sstart input) in
-    if vis_zero (vcross delta normal) then (None, 2%N) else
+    if nabs (vdot delta normal) >? c1em5 * vlen normal then (None, 2%N) else
     if nabs (vz normal) >? c1em5 then
       let det := vy a * vx b - vx a * vy b in
       (Some ((vy b * vx delta - vx b * vy delta) / det, (vy a * vx delta - vx a * vy delta) / det), 3%N)
